@@ -261,11 +261,13 @@ int32_t jls_fsr_open(struct jls_core_fsr_s ** instance, struct jls_core_signal_s
 
 int32_t jls_fsr_close(struct jls_core_fsr_s * self) {
     int32_t rc;
+    int32_t rc_first = 0;  // everything is still released, but the first failure is reported to the caller
     if (self) {
         if (self->data) {
             rc = wr_data(self);  // write remaining sample data
             if (rc) {
                 JLS_LOGE("wr_data returned %" PRIi32, rc);
+                rc_first = rc;
             }
             JLS_LOGD1("%d sample_buffer free %p", (int) self->parent->signal_def.signal_id, (void *) self->data);
             jls_core_fsr_sample_buffer_free(self);
@@ -275,6 +277,9 @@ int32_t jls_fsr_close(struct jls_core_fsr_s * self) {
             rc = summary_close(self, (uint8_t) i);
             if (rc) {
                 JLS_LOGE("summary_close(%d) returned %" PRIi32, (int) i, rc);
+                if (!rc_first) {
+                    rc_first = rc;
+                }
             }
         }
         if (self->tmap) {
@@ -283,7 +288,7 @@ int32_t jls_fsr_close(struct jls_core_fsr_s * self) {
         }
         free(self);
     }
-    return 0;
+    return rc_first;
 }
 
 static void summary_entry_add(struct jls_core_fsr_s * self, uint8_t level,
